@@ -459,6 +459,10 @@ func c09TimeAll(c *Ctx, only string) {
 		time.Date(9999, 6, 30, 23, 59, 59, 0, time.UTC),
 		time.Date(2262, 4, 11, 23, 47, 17, 0, time.UTC),
 		time.Date(1677, 9, 21, 0, 12, 43, 0, time.UTC),
+		// exactly 2^63 and 2^64 nanoseconds after 2000-01-01: the distances at
+		// which 64-bit nanosecond arithmetic wraps around
+		time.Date(2000, 1, 1, 0, 0, 0, 0, time.UTC).Add(math.MaxInt64).Add(1),
+		time.Date(2000, 1, 1, 0, 0, 0, 0, time.UTC).Add(math.MaxInt64).Add(math.MaxInt64).Add(2),
 	}
 	durs := []time.Duration{0, 1, -1, time.Hour, -time.Hour, 7 * 24 * time.Hour, 1500 * time.Millisecond}
 	fmtDur := func(d time.Duration) string {
